@@ -79,6 +79,8 @@ var c11Sec = []c11Sections{
 	{"secret-colon", "remote_write:\n- url: http://rw/w\n  basic_auth:\n    username: w\n    password: \"pa: ss\"\n", []string{"pa: ss"}},
 	{"secret-quote", "remote_write:\n- url: http://rw/w\n  basic_auth:\n    username: w\n    password: \"it's \\\"q\\\"\"\n", []string{"it's \"q\""}},
 	{"secret-space", "remote_write:\n- url: http://rw/w\n  basic_auth:\n    username: w\n    password: \" lead\"\n", []string{" lead"}},
+	// unquoted scalars that YAML resolves to numbers, booleans or null when read without a schema
+	{"scalars-that-look-typed", "global:\n  scrape_interval: 30s\nremote_write:\n- url: http://rw/w\n  basic_auth:\n    username: 007\n    password: 0123456\n  write_relabel_configs:\n  - {target_label: on, replacement: 01}\n  - {target_label: ver, replacement: 1.10}\n- url: http://rw2/w\n  bearer_token: 1e3\nremote_read:\n- url: http://rr/r\n  basic_auth:\n    username: r\n    password: 0x1F\n", nil},
 	{"rw-oauth2", "remote_write:\n- url: http://rw/w\n  oauth2:\n    client_id: c\n    client_secret: RWOAUTH-1\n    token_url: http://t/t\n", []string{"RWOAUTH-1"}},
 }
 
